@@ -27,8 +27,9 @@ ODK XForms conventions quoted in the property:
     control whose ref is q's node path); its value is the row's calculation with references substituted (no
     value attribute when the row has no calculation); the row's bind carries no `calculate`;
   * rows without a trigger are the target of no value-changed action;
-  * a trigger cell that is not one plain reference is outside the stated pairing; only "the calculation is not
-    silently lost" is demanded for it (own key, see FINDINGS_C10.md).
+  * a trigger cell that is not one plain reference, or that names a question without a body control (hidden,
+    metadata...), is outside the stated pairing; only "the calculation is not silently lost" is demanded for it
+    (own keys, see FINDINGS_C10.md).
 
 Every setvalue / setgeopoint whose ref is a survey row's node must be accounted for by one of the two rules.
 Nothing is computed with pyxform.
@@ -368,8 +369,10 @@ def check(case: Case, res: Result, ctx: dict) -> list[dict]:
                              f"{desc}: no trigger cell, yet {[(a['tag'], a['value'], doc.where(a)) for a in changed]}"))
             continue
         m = re.fullmatch(r"\$\{\s*([^\s{}$#]+)\s*\}", trigger)
+        lost = ((calc is not None or r.raw_type == "background-geopoint") and not acts
+                and not any(b.get("calculate") is not None for b in doc.binds.get(p, [])))
         if not m:
-            if calc is not None and not acts and not any(b.get("calculate") is not None for b in doc.binds.get(p, [])):
+            if lost:
                 out.append(V("trigger-not-single-reference:calculation-lost",
                              f"{desc}: trigger {trigger!r}, calculation {calc!r}: no action targets the node and its bind "
                              f"has no calculate - the calculation is emitted nowhere"))
@@ -377,7 +380,18 @@ def check(case: Case, res: Result, ctx: dict) -> list[dict]:
         cands = by_name.get(m.group(1), [])
         if len(cands) != 1 or cands[0][1].kind != "question" or len(by_name.get(r.name, [])) != 1:
             continue
-        qpath = cands[0][0]
+        qpath, qrow = cands[0]
+        if qrow.type is None:
+            continue                       # a type outside the XLSForm type table: nothing known about its control
+        qspec = corpus.SV_XLSFORM_TYPES.get(qrow.type)
+        if qspec is None or qspec["control"] is None:
+            # the triggering question has no body control by the type table (hidden, calculate, metadata...): there
+            # is no control to nest the action in; only "not silently lost" is demanded (see FINDINGS_C10.md)
+            if lost:
+                out.append(V("trigger-question-without-control:calculation-lost",
+                             f"{desc}: trigger {trigger!r} names a {qrow.raw_type} question (no body control), calculation "
+                             f"{calc!r}: the form is accepted but no action targets the node and its bind has no calculate"))
+            continue
         want_tag = "setgeopoint" if r.raw_type == "background-geopoint" else "setvalue"
         showc = [(a["tag"], a["event"], a["value"], doc.where(a)) for a in changed]
         if not changed:
@@ -639,6 +653,11 @@ def trigger_family(tier, rnd):
                 {"type": "text", "name": "c2", "label": "C2", hc: "now()", "trigger": "${trg}", "default": "today()"},
                 {"type": "text", "name": "c3", "label": "C3", "default": "plain"}]
         out.append(Case(f"C10-trigger-alias-{hi}", wb=_wb(rows, order), origin="C10"))
+    # triggers naming a question that has no body control (hidden / metadata): nothing to nest the action in
+    for ti, tt in enumerate(["hidden", "start", "today", "deviceid", "background-audio"]):
+        rows = [*HEAD, {"type": tt, "name": "ht"}, _q("text", {}, "c1", calculation="${n0} + 1", trigger="${ht}"),
+                _q("text", {}, "c2", default="d2")]
+        out.append(Case(f"C10-trigger-no-control-{ti}", wb=_wb(rows), origin="C10"))
     # a trigger cell listing two references: outside the stated pairing, the calculation must at least survive
     rows = [*HEAD, _q("text", {}, "ta"), _q("text", {}, "tb"),
             _q("calculate", {"label": None}, "c1", calculation="${ta} + 1", trigger="${ta}, ${tb}")]
